@@ -13,11 +13,12 @@ def argBytes (ws : List String) (k : String) : List Nat :=
 
 instance : Inhabited Alphabet := ⟨{ type := 0, K := 0, Kp := 0, sym := [], inmap := [], degen := [], ndegen := [], complement := none }⟩
 
-def NT : Alphabet := (Alphabet.createDna).getD default
+def NTD : Alphabet := (Alphabet.createDna).getD default
+def NTR : Alphabet := (Alphabet.createRna).getD default
 def AA : Alphabet := (Alphabet.createAmino).getD default
 
 
-def makeCode (ws : List String) : Option Gencode := do
+def makeCode (NT : Alphabet) (ws : List String) : Option Gencode := do
   let id := (argInt? ws "id").getD 1
   let g ← setTable EaselModel.Generated.Gencode.tables id
   match arg? ws "init" with
@@ -27,7 +28,7 @@ def makeCode (ws : List String) : Option Gencode := do
 
 def byteOfInt (t : Int) : Nat := (t % 256).toNat
 
-def tripletsLine (g : Gencode) : String := Id.run do
+def tripletsLine (NT : Alphabet) (g : Gencode) : String := Id.run do
   let Kp := NT.Kp
   let mut tr : Array UInt8 := #[]
   let mut ini : Array UInt8 := #[]
@@ -50,6 +51,7 @@ def step (s : Unit) (line : String) : Unit × String :=
   match ws with
   | [] => (s, "bad-op")
   | op :: _ =>
+  let NT := if arg? ws "nt" == some "rna" then NTR else NTD
   if op == "ntables" then
     let ids := ((List.range 302).map (fun (i : Nat) => Int.ofNat i - 2)).filter fun id => (setTable EaselModel.Generated.Gencode.tables id).isSome
     (s, "ok ids=" ++ ",".intercalate (ids.map toString))
@@ -61,12 +63,12 @@ def step (s : Unit) (line : String) : Unit × String :=
       | none => (s, "eformat")
       | some g => (s, s!"ok id={g.translTable} desc={hx (strBytes g.desc)} basic={hx g.basic} init={hx g.isInit}")
   else
-  match makeCode ws with
+  match makeCode NT ws with
   | none => (s, "enotfound")
   | some g =>
   if op == "table" then
     (s, s!"ok id={g.translTable} desc={hx (strBytes g.desc)} basic={hx g.basic} init={hx g.isInit}")
-  else if op == "triplets" then (s, tripletsLine g)
+  else if op == "triplets" then (s, tripletsLine NT g)
   else if op == "codon" then
     let a := (argNat? ws "a").getD 0; let b := (argNat? ws "b").getD 0; let c := (argNat? ws "c").getD 0
     match getTranslation NT AA g a b c, isInitiator NT g a b c with
